@@ -20,6 +20,17 @@ BUILTIN_DUNDER = {"str": ["__str__"], "repr": ["__repr__"], "abs": ["__abs__"],
                   "neg": ["__neg__"]}
 
 
+def _path_in_target(t: ast.AST, name: str) -> Optional[List[int]]:
+    if isinstance(t, ast.Name):
+        return [] if t.id == name else None
+    if isinstance(t, (ast.Tuple, ast.List)):
+        for i, x in enumerate(t.elts):
+            r = _path_in_target(x, name)
+            if r is not None:
+                return [i] + r
+    return None
+
+
 def enclosing_function(prog: Program, node: ast.AST) -> Optional[ast.AST]:
     n = getattr(node, "_parent", None)
     while n is not None and not isinstance(n, (ast.FunctionDef, ast.AsyncFunctionDef, ast.Lambda)):
@@ -109,8 +120,9 @@ class Resolver:
             k = self.prog.resolve_name(mi, node.id)
             if k and k in self.prog.classes:
                 return [("cls", f"{PKG}.{k}")]
-            # comprehension / loop targets: look for a typed use elsewhere on the line
-            return []
+            # comprehension / loop targets (f-string internals carry no mypy position):
+            # element type of the iterable, destructured like the target
+            return self._target_type(fi, node)
         if isinstance(node, ast.Attribute):
             base = self.expr_alts(fi, node.value)
             out: List[Tuple[str, str]] = []
@@ -135,6 +147,43 @@ class Resolver:
             if k and k in self.prog.functions:
                 f2 = self.prog.functions[k]
                 return self.ann_alts(self.prog.modules[f2.module], f2.node.returns)  # type: ignore[attr-defined]
+        return []
+
+    def _target_type(self, fi: FuncInfo, name: ast.Name) -> List[Tuple[str, str]]:
+        p = getattr(name, "_parent", None)
+        while p is not None and p is not fi.node:
+            gens = getattr(p, "generators", None)
+            if gens:
+                for g in gens:
+                    path = _path_in_target(g.target, name.id)
+                    if path is None:
+                        continue
+                    t = self.prog.mypy_type(fi.module, g.iter)
+                    if t is None:
+                        continue
+                    try:
+                        from mypy import types as T
+                        from .model import flatten_type
+                        t = T.get_proper_type(t)
+                        elem = None
+                        if isinstance(t, T.Instance) and t.args:
+                            elem = t.args[-1] if t.type.fullname in ("builtins.dict",) else t.args[0]
+                            if t.type.fullname.endswith("dict_items") and len(t.args) >= 2:
+                                elem = T.TupleType(list(t.args[:2]), t)  # type: ignore[arg-type]
+                        if elem is None:
+                            return []
+                        for idx in path:
+                            elem = T.get_proper_type(elem)
+                            if isinstance(elem, T.TupleType) and idx < len(elem.items):
+                                elem = elem.items[idx]
+                            elif isinstance(elem, T.Instance) and elem.type.fullname == "builtins.tuple" and elem.args:
+                                elem = elem.args[0]
+                            else:
+                                return []
+                        return flatten_type(elem)
+                    except Exception:
+                        return []
+            p = getattr(p, "_parent", None)
         return []
 
     # ------------------------------------------------------------ helpers
